@@ -602,3 +602,21 @@ PROPS["C09"]["note"] += (" Not proved: prefix determinism, shift invariance of t
     "hypotheses (valid open-block ids, list items with positive content offset) - covered by the evaluated statement.")
 PROPS["C09"]["assumptions"] = list(PROPS["C09"].get("assumptions", [])) + [
     "reachable states satisfy the hypotheses of the reset theorems; prefix determinism and shift invariance of the line loop (evaluated on every blockindep triple, not proved)"]
+
+# ---- session 4, package e2e (notes/status_e2e.md): end-to-end statements over the composed model convertCore ----
+PROPS["C03"]["claim"] += (" END TO END for the default CommonMark configuration: Spec.Inv is no longer only monitored there - parser_output_satisfies_inv "
+    "proves it of the tree GM.Convert.convertCore renders for EVERY byte string (heading levels 1..6 by a store invariant carried through the whole "
+    "block phase with the link-reference transformer: block_store_heading_levels; CodeSpan children Text, no attributes, no String / table node by the "
+    "inline-phase shape theorems), hence convert_safe_wellformed: whenever convertCore answers HTML with Unsafe off, that HTML passes safeHtmlOK (and "
+    "xmlOK with XHTML). Extensions and parser.WithAttribute are outside this composition.")
+PROPS["C04"]["claim"] += (" END TO END (convert_safe_urls_harmless, url_pieces_at_attribute_sites): in the safe-mode HTML the composed model convertCore "
+    "answers for ANY source, every destination is written at `<a href=\"` / `<img src=\"` (+ mailto:), is quote-free up to the closing quote and is not "
+    "hrefDangerous - the per-value theorems composed over whole documents at the level of the option-independent piece list (not yet through the "
+    "tokenizer's urlsOK).")
+PROPS["C10"]["claim"] += (" END TO END (convert_options_orthogonal, convert_tree_independent_of_options, convert_unsafe_only_changes_raw): for every source "
+    "ONE option-free piece list gives the HTML of the composed model convertCore under all eight option sets (or the same error under all of them): the "
+    "parse phases never see the renderer options, and the pinned-alignment proviso is vacuous without the table extension.")
+PROPS["C01"]["claim"] += (" Renderer side of the composition: the outcome `render k` of convertCore is unreachable for every source "
+    "(convert_no_render_panic: no renderer panic on parser output); a Segment.Value panic in a node renderer is reduced "
+    "(convert_no_value_panic_partial) to two open facts: segment ranges of raw blocks' info / closure lines in the block store and non-negative padding "
+    "of inline segments.")
